@@ -5,6 +5,8 @@ CONSTANTS
   MaxIno = 60
   KMaxLinks = 40
   TolerateEEXIST = TRUE
+  RefuseDotDotTail = TRUE
+  AtkMkdirNames <- const_NoNames
   MaxAttack = 0
   KeepDotInStack = FALSE
 CONSTRAINT Progress
